@@ -25,6 +25,7 @@ REVERTS = {
     'fix: delete/replace/remove edited': ('revert-d6-identity-lookup', 'C05 C15'),
     'fix: inserted/appended nodes were stored': ('revert-d20-unwrap', 'C15'),
     'fix: .text skipped text': ('revert-d16-text-str', 'C15'),
+    'fix: TexExpr.insert resolves a negative index': ('revert-d22-negative-insert', 'C05 C15'),
 }
 
 
